@@ -16,6 +16,7 @@ read error → `repair_index` drops the intact pack in release builds).
 import Rustic.Lemmas.Pack
 import Rustic.Lemmas.Index
 import Rustic.Lemmas.PackWriter
+import Rustic.Model.HotCold
 import Rustic.Props.C17
 import Rustic.Gen.Constants
 namespace Rustic.Props.C08
@@ -443,5 +444,101 @@ example : fromBinary (toBinary [⟨5, .tree, ⟨99, 40, none⟩⟩, ⟨6, .data,
 /-- truncated entry, unknown magic, `len_data = 0` -/
 example : fromBinary ((toBinary [⟨5, .tree, ⟨0, 40, none⟩⟩]).take 36) = none ∧ fromBinary [7] = none ∧
     fromBinary (2 :: (le32 8 ++ le32 0 ++ beBytes 32 1)) = some [⟨1, .data, ⟨0, 8, none⟩⟩] := by decide
+
+/-! ### Round 3: pack-header reads on a hot/cold repository, and the dry run of `repair_index` -/
+
+open Rustic.HotCold Rustic.Backends in
+/-- (C08-6) `PackHeader::from_file` reads with `cacheable = false`, so `HotColdBackend::read_partial` never routes a header
+read to the hot part — for tree packs and data packs alike. -/
+theorem header_read_never_routed_to_hot (t : BlobType) : usesHot FileType.pack (headerReadCacheable t) = false := rfl
+
+open Rustic.HotCold Rustic.Backends in
+/-- … hence, WHATEVER the hot part holds (it holds tree packs only), a header read on a hot/cold repository returns what
+the cold store alone (a single-store repository) returns: `repair_index` on hot/cold sees every pack of the cold store. -/
+theorem header_read_on_hotcold_eq_cold (s : HC) (t : BlobType) (id : Name) (off len : Nat) :
+    HotCold.readPartial s FileType.pack id (headerReadCacheable t) off len = singleReadPartial s FileType.pack id off len := by
+  simp [HotCold.readPartial, singleReadPartial, usesHot, headerReadCacheable]
+
+open Rustic.HotCold Rustic.Backends in
+/-- … and it is the very ranged read `fromFile` (the model of `PackHeader::from_file`) performs on the pack file of the cold
+store (`Pack.readPartial file`), so `parse_build` / `index_rebuildable` speak about header reads on hot/cold repositories too. -/
+theorem header_read_on_hotcold_reads_cold_file (s : HC) (t : BlobType) (id : Name) (file : Rustic.Pack.Bytes) (off len : Nat)
+    (hcold : s.cold (FileType.pack, id) = some file) :
+    HotCold.readPartial s FileType.pack id (headerReadCacheable t) off len =
+      (match Rustic.Pack.readPartial file off len with | some d => Res.ok d | none => Res.err) := by
+  simp only [HotCold.readPartial, usesHot, headerReadCacheable, hcold, slice, Rustic.Pack.readPartial]
+  by_cases h : off + len ≤ List.length file <;> simp [h]
+
+open Rustic.HotCold Rustic.Backends in
+/-- the same at the level of the command: let `rd hot` be the header read (`from_file`) served by the hot (`true`) / cold
+(`false`) part; `repair_index` on hot/cold — every read routed by `usesHot` with the flag `from_file` passes — computes the
+index files `repair_index` computes on the cold store alone, whatever type `tpeOf` the packs have. -/
+theorem repair_index_hotcold_eq_cold (rd : Bool → Nat → Option Nat → Nat → Option (List IndexBlob)) (tpeOf : Nat → BlobType)
+    (store : List (Nat × Nat)) (files : List Rustic.Index.IndexFile) (readAll dry : Bool) :
+    Rustic.Index.repairIndexD dry (fun id hint sz => rd (usesHot FileType.pack (headerReadCacheable (tpeOf id))) id hint sz)
+        store files readAll =
+      Rustic.Index.repairIndexD dry (rd false) store files readAll := rfl
+
+open Rustic.HotCold Rustic.Backends in
+/-- blob reads: data blobs come from the cold store, tree blobs from the hot part (`BlobType::is_cacheable`). -/
+theorem blob_read_routing (s : HC) (id : Name) (off len : Nat) :
+    HotCold.readPartial s FileType.pack id (blobReadCacheable .data) off len = singleReadPartial s FileType.pack id off len ∧
+    HotCold.readPartial s FileType.pack id (blobReadCacheable .tree) off len = slice (s.hot (FileType.pack, id)) off len := by
+  simp [HotCold.readPartial, singleReadPartial, usesHot, blobReadCacheable]
+
+open Rustic.HotCold Rustic.Backends in
+/-- counter-model (seeded change C08-6: header reads with `cacheable = true`): a data pack that is stored in the cold part
+only — as every data pack is — cannot be read, while the non-cacheable read of the code succeeds. -/
+theorem cacheable_header_read_misses_data_pack :
+    ∃ (s : HC) (id : Name), s.hot (FileType.pack, id) = none ∧
+      HotCold.readPartial s FileType.pack id true 0 1 = .err ∧
+      HotCold.readPartial s FileType.pack id (headerReadCacheable .data) 0 1 = .ok [7] := by
+  refine ⟨{ hot := fun _ => none, cold := SpecMap.write (fun _ => none) (FileType.pack, ['a']) [7] }, ['a'], ?_, ?_, ?_⟩ <;> decide
+
+/-- the in-memory rebuild (`Repository::to_indexed_checked` = `index_checked_from_collector`, model `checkedPacks`): whenever it
+succeeds, it indexes exactly the unmarked listings of the index files `repair_index` would write (same packs, blobs, order) — for
+every store, every damaged set of index files, every header-read function; so `index_rebuildable` describes it as well. -/
+theorem checked_index_eq_repaired_index (readHeader : Nat → Option Nat → Nat → Option (List IndexBlob)) (store : List (Nat × Nat))
+    (files : List Rustic.Index.IndexFile) (ps : List Rustic.Index.IndexPack)
+    (h : Rustic.Index.checkedPacks readHeader store files = some ps) :
+    ps = Rustic.Index.unmarked (Rustic.Index.repairIndex readHeader store files false) :=
+  Rustic.Index.checkedPacks_eq_repaired readHeader store files ps h
+
+/-- non-vacuity: one listed pack, one unlisted readable pack → both indexed; an unreadable unlisted pack fails the load. -/
+example : (Rustic.Index.checkedPacks (fun _ _ _ => some []) [(1, 36), (2, 36)]
+      [{ packs := [{ id := 1, blobs := [], size := none }], packsToDelete := [] }]).map (·.map (·.id)) = some [1, 2] ∧
+    (Rustic.Index.checkedPacks (fun _ _ _ => none) [(1, 36), (2, 36)]
+      [{ packs := [{ id := 1, blobs := [], size := none }], packsToDelete := [] }]).isNone = true := by decide
+
+/-- (C08-7) a dry run of `repair_index` changes nothing: the index files afterwards are the index files before, for every
+store, every set of index files (damaged or not), every header-read outcome and `read_all` on or off. -/
+theorem dry_run_changes_nothing (readHeader : Nat → Option Nat → Nat → Option (List IndexBlob)) (store : List (Nat × Nat))
+    (files : List Rustic.Index.IndexFile) (readAll : Bool) :
+    Rustic.Index.repairIndexD true readHeader store files readAll = files :=
+  Rustic.Index.repairIndexD_dry readHeader store files readAll
+
+/-- … and the real run after a dry run (with any options) is the real run: `index_rebuildable` applies to it unchanged. -/
+theorem dry_run_then_repair_eq_repair (readHeader : Nat → Option Nat → Nat → Option (List IndexBlob)) (store : List (Nat × Nat))
+    (files : List Rustic.Index.IndexFile) (readAllDry readAll : Bool) :
+    Rustic.Index.repairIndexD false readHeader store (Rustic.Index.repairIndexD true readHeader store files readAllDry) readAll =
+      Rustic.Index.repairIndex readHeader store files readAll := by
+  rw [Rustic.Index.repairIndexD_dry, Rustic.Index.repairIndexD_false]
+
+/-- a dry run inspects exactly what the real run would: the header reads (pack, size hint, pack size — in order) do not depend
+on `dry_run`, and the real run after the dry run repeats them. -/
+theorem dry_run_reads_same_headers (store : List (Nat × Nat)) (files : List Rustic.Index.IndexFile) (readAll : Bool)
+    (readHeader : Nat → Option Nat → Nat → Option (List IndexBlob)) :
+    Rustic.Index.repairReadsD true store files readAll = Rustic.Index.repairReadsD false store files readAll ∧
+    Rustic.Index.repairReadsD false store (Rustic.Index.repairIndexD true readHeader store files readAll) readAll =
+      Rustic.Index.repairReadsD false store files readAll := by
+  rw [Rustic.Index.repairIndexD_dry]
+  exact ⟨Rustic.Index.repairReadsD_dry_irrelevant true false store files readAll, rfl⟩
+
+/-- non-vacuity: an index file listing a pack that no longer exists WOULD be modified by the real run (here: dropped), the dry run
+keeps it (seeded change C08-7 removes it in the dry run as well). -/
+example :
+    (Rustic.Index.repairIndex (fun _ _ _ => none) [] [{ packs := [{ id := 2, blobs := [], size := none }], packsToDelete := [] }] false).length = 0 ∧
+    (Rustic.Index.repairIndexD true (fun _ _ _ => none) [] [{ packs := [{ id := 2, blobs := [], size := none }], packsToDelete := [] }] false).length = 1 := by
+  decide
 
 end Rustic.Props.C08
